@@ -37,7 +37,13 @@ def gen_point(g, path_dep=False):
     m = s
     if path_dep:
         r = g.r.random()
-        m = s if r < 0.3 else (max(s, 0.0) if r < 0.45 else s + g.r.uniform(0, 0.6))
+        # running max = spot; running max exactly AT the strike (m == 0 with s <= 0); above the spot
+        if r < 0.25:
+            m = s
+        elif r < 0.5:
+            s, m = (-abs(s) if g.chance(0.8) else 0.0), 0.0
+        else:
+            m = s + g.r.uniform(0, 0.6)
     return s, t, v, k, m
 
 
